@@ -108,6 +108,15 @@ def run(ctx):
         f = ch[lab] if pw is None else arclib.with_aes(ch[lab])
         ajobs.append((final, m1, f, pw, header, "a"))
         ameta.append(("append:" + lab, final, m0, m1, pw))
+        if header == "encoded" and pw is None:
+            # the new packed data overwrites the old (encoded) header while the old signature header still points at it:
+            # vary what the first new bytes are (empty members only, data starting with NUL bytes, another coder)
+            nm = arclib.gen_names(rng, 2)
+            for tag, m2, f2 in (("empty-only", [(nm[0], b""), (nm[1], b"")], f),
+                                ("nul-copy", [(nm[0], b"\x00" * 9 + arclib.gen_content(rng, 40))], ch["Copy"]),
+                                ("lzma1", [(nm[0], arclib.gen_content(rng, 60))], ch["LZMA"])):
+                ajobs.append((final, m2, f2, pw, header, "a"))
+                ameta.append(("append:%s/%s" % (lab, tag), final, m0, m2, pw))
     arec = sandbox.pmap(_record, ajobs, timeout=120)
     for (label, base, m0, m1, pw), (st, val) in zip(ameta, arec):
         if st != "ok":
